@@ -338,6 +338,14 @@ class Ctx:
             futs = [ex.submit(self.coq_eval, n, t, timeout) for n, t in texts]
             for k, fu in enumerate(futs):
                 rc, out = fu.result()
+                tries = 0
+                while rc != 0 and tries < 2 and "Error" not in out:
+                    # no Coq error in the output: the process was killed (memory pressure / time limit on a
+                    # loaded machine); evaluate the shard again, on its own
+                    tries += 1
+                    self.log("shard %d of %s: coqc ended with status %s without a Coq error, evaluating it again" % (
+                        k, tag, rc))
+                    rc, out = self.coq_eval(texts[k][0] + "_retry%d" % tries, texts[k][1], timeout * 2)
                 if rc != 0:
                     return bad, nt, "coqc failed on shard %d:\n%s" % (k, out[-3000:])
                 m = re.search(r"RES_bad\s*=\s*(\[.*?\])\s*:\s*list", out, re.S)
